@@ -60,6 +60,9 @@ def scenarios(rng, tier):
     w_adf = ["open w adf", "new / N0 Lab0_t I4 200 %d" % r(), "new /N0 N1 Lab1_t I4 200 %d" % r(), "new / N2 Lab2_t C1 7 %d" % r(),
              "new / N3 Lab3_t R8 2500 %d" % r(), "new /N0 N5 Lab5_t I4 7 %d" % r(), "wr /N0 I4 900 %d" % r(),
              "wrpart /N0 10 300 %d" % r(), "wrblock /N0 5 40 %d" % r(), "setlabel /N0/N5 Relabel_t", "rd /N3", "ls /", "close"]
+    # a new file closed at once: the only session whose close still has a block to flush (every mutator ends with the
+    # modification-date write, which flushes)
+    out.append(dict(name="adf-create-close", backend="adf", prep=[], script=["open w adf", "close"]))
     out.append(dict(name="adf-write", backend="adf", prep=[], script=w_adf))
     out.append(dict(name="adf-modify", backend="adf", prep=[("f.cgns", w_adf)],
                     script=["open m adf", "new / M0 Mod_t R8 700 %d" % r(), "wr /N0 R8 1200 %d" % r(), "del /N2", "move /N0/N5 /N3",
